@@ -212,6 +212,9 @@ def directed_cases():
 			'sub/deep/a.cats': ok_file(dd, decl('TyD2'))}),
 		('root-in-subdirectory', C, {C: ok_file(imp(D), imp(A), dc), D: ok_file(imp(C), dd), A: ok_file(da, decl('TyA2'))}),
 	]
+	# file names outside ASCII (import names are string literals of the DSL; the file system gets the same characters)
+	E, F, G = 'tüpes.cats', 'схема/типы.cats', 'sub/名前.cats'
+	cases.append(('non-ascii-names', A, {A: ok_file(imp(E), imp(F), da), E: ok_file(imp(G), db), F: ok_file(dc), G: ok_file(dd)}))
 	out = []
 	# every validation fault family in the root, in a mid-level file and in a leaf; plain YAML output for the root position,
 	# a working generator for the mid-level one, a failing generator for the leaf (validation comes first: still 2, nothing written)
@@ -613,25 +616,33 @@ def qlit(text):
 
 def model_expr(case):
 	rows = []
+	# file names are opaque to the model: names outside the literal alphabet are renamed consistently (files, import targets, root)
+	aliases = {}
+
+	def qpath(path):
+		if all(c.isascii() and (c.isalnum() or c in '/._- ') for c in path):
+			return qlit(path)
+		aliases.setdefault(path, f'renamed{len(aliases)}.cats')
+		return qlit(aliases[path])
 	for path, spec in case['files'].items():
 		if spec['kind'] == 'syntax':
-			rows.append(f'({qlit(path)}, Unparsable)')
+			rows.append(f'({qpath(path)}, Unparsable)')
 			continue
 		items = []
 		for item in spec['items']:
 			if item[0] == 'import':
-				items.append(f'Import {qlit(item[1])}')
+				items.append(f'Import {qpath(item[1])}')
 			elif item[0] == 'comment':
 				items.append('Comment')
 			else:
 				refs = '; '.join(qlit(r) for r in item[1]['refs'])
 				items.append(f'Decl {{| dname := {qlit(item[1]["name"])}; drefs := [{refs}]; dpost_ok := {"true" if item[1]["post_ok"] else "false"} |}}')
-		rows.append(f'({qlit(path)}, Parsed [{"; ".join(items)}])')
+		rows.append(f'({qpath(path)}, Parsed [{"; ".join(items)}])')
 	flags = case['flags']
 	outp = 'false' if flags == 'none' else 'true'
 	gen = 'true' if flags in ('gen_ok', 'gen_boom') else 'false'
 	gen_ok = 'false' if flags == 'gen_boom' else 'true'
-	return f'render_run [{"; ".join(rows)}] {qlit(case["root"])} {outp} {gen} {gen_ok}'
+	return f'render_run [{"; ".join(rows)}] {qpath(case["root"])} {outp} {gen} {gen_ok}'
 
 
 # ---------------------------------------------------------------------------------------------------------------------
